@@ -40,8 +40,22 @@ def main() -> int:
     except common.InfraError as e:
         print(f"INFRA-ERROR [{prop}]: {e}", file=sys.stderr)
         return 2
-    except Exception:  # noqa: BLE001
+    except Exception as e:  # noqa: BLE001
         traceback.print_exc()
+        # an exception that was RAISED INSIDE the code under test while the harness was generating or evaluating (not an
+        # exception of the harness itself) is a finding about the tree, not an infrastructure problem: report it, with
+        # the traceback as the replay (never happens on the unchanged tree, where every generator call succeeds)
+        tb = traceback.extract_tb(e.__traceback__)
+        repo = str(common.REPO.resolve())
+        if tb and os.path.realpath(tb[-1].filename).startswith(repo + os.sep + "pyoda_time"):
+            common.REPLAYS.mkdir(exist_ok=True)
+            path = common.REPLAYS / f"{prop}-harness-crash.json"
+            path.write_text(json.dumps({"property": prop, "kind": "exception-in-code-under-test-while-generating",
+                                        "exception": f"{type(e).__name__}: {e}", "raised_in": f"{tb[-1].filename}:{tb[-1].lineno} {tb[-1].name}",
+                                        "traceback": traceback.format_exc()[-3000:],
+                                        "note": "the harness builds its operands and references with the library itself; this call cannot fail on a tree where the property holds"}, indent=1))
+            print(f"VIOLATION property={prop} replay={path} no-failing-input-found")
+            return 1
         print(f"INFRA-ERROR [{prop}]: unexpected exception in the harness", file=sys.stderr)
         return 2
 
